@@ -18,7 +18,7 @@ import m2  # noqa: E402
 PID = "C05"
 TOL = Fraction(1, 10 ** 9)
 INV_SQRT_2PI = Fraction(3989422804014327, 10 ** 16)
-REQ = "From MM Require Import RealSpec.Normal RealSpec.TDist Proofs.NormalR Proofs.TDistR Proofs.M2Lemmas."
+REQ = "From MM Require Import RealSpec.Normal RealSpec.TDist RealSpec.TDistGen Proofs.NormalR Proofs.TDistR Proofs.M2Lemmas Proofs.M2LemmasGen."
 EPS52 = Fraction(1, 2 ** 52)
 
 
@@ -47,6 +47,10 @@ def parse(ints):
         cnt2 = ints[o]
         inv = [dict(y=X(ints[o + 1 + 2 * i]), inv=X(ints[o + 2 + 2 * i])) for i in range(cnt2)]
         return dict(op=5, T=X(ints[2]), lo=X(ints[3]), hi=X(ints[4]), pts=pts, inv=inv)
+    if op == 6:
+        cnt = ints[8]
+        return dict(op=6, fn=ints[2], p1=X(ints[3]), p2=X(ints[4]), lo=X(ints[5]), hi=X(ints[6]), n=ints[7],
+                    pts=[dict(xlo=X(ints[9 + 4 * i]), xhi=X(ints[10 + 4 * i]), cdf_lo=X(ints[11 + 4 * i]), cdf_hi=X(ints[12 + 4 * i])) for i in range(cnt)])
     return dict(op=op)
 
 
@@ -60,7 +64,7 @@ def describe(ints, verdict, case_json):
     pos = verdict[2] if len(verdict) > 2 else -1
     if pos >= 1 << 62:
         pos = -1
-    names = {1: "NormalDist grid", 2: "NormalDist.InvCDF", 3: "NormalDist.Rand", 4: "TDist grid", 5: "DeltaDist"}
+    names = {1: "NormalDist grid", 2: "NormalDist.InvCDF", 3: "NormalDist.Rand", 4: "TDist grid", 5: "DeltaDist", 6: "CDF monotonicity scan"}
     out = dict(op=names.get(d["op"], d["op"]), index=pos)
     try:
         code = verdict[3] if len(verdict) > 3 else None
@@ -81,6 +85,14 @@ def describe(ints, verdict, case_json):
         elif d["op"] == 3 and 0 <= pos < len(d["pts"]):
             out.update(mu=m2.fstr(d["mu"]), sigma=m2.fstr(d["sigma"]), point={k: m2.fstr(v) for k, v in d["pts"][pos].items()},
                        failed="Rand != NormFloat64()*Sigma+Mu")
+        elif d["op"] == 6:
+            out.update(function={1: "NormalDist.CDF", 2: "TDist.CDF"}.get(d["fn"], d["fn"]), p1=m2.fstr(d["p1"]), p2=m2.fstr(d["p2"]),
+                       failed={2: "CDF value outside [0,1] or not finite", 3: "CDF(xlo) > CDF(xhi) + 1e-12 for xlo < xhi (not monotone)"}.get(code, code))
+            if 0 <= pos < len(d["pts"]):
+                pt = d["pts"][pos]
+                out["pair"] = {k: m2.fstr(v, 19) for k, v in pt.items()}
+                if m2.is_num(pt["cdf_lo"]) and m2.is_num(pt["cdf_hi"]):
+                    out["step"] = m2.fstr(pt["cdf_hi"] - pt["cdf_lo"])
         elif d["op"] == 5:
             out.update(T=m2.fstr(d["T"]), failed={1: "PDF", 2: "CDF (unit step at T)", 3: "InvCDF (quantile T)", 12: "Bounds"}.get(code, code))
             if code in (1, 2) and 0 <= pos < len(d["pts"]):
@@ -143,7 +155,25 @@ def goal_invcdf(gid, mu, sigma, p, x, pdfx, info):
                    finish="integral with (%(gopt)s)")
 
 
+HALF = Fraction(1, 2)
+
+
+def t_certifiable(v, x):
+    """window the kernel certifies: integer and half-integer V in [1,200] (RealSpec/TDist.v forms) and
+    V = 1/2 (RealSpec/TDistGen.v: the one half-integer below 1; integrand 1/sqrt(cos) up to atan(x/sqrt V))"""
+    if not m2.is_num(v):
+        return False
+    if v == HALF:
+        return abs(x) <= 64
+    return half_steps(v) is not None and abs(x) <= 1000
+
+
 def t_forms(v):
+    if v == HALF:
+        return dict(expr_cdf="tcdf_gen (1 / 2) %s", expr_pdf="tpdf_gen (1 / 2) %s",
+                    cdf_prelude="rewrite tcdf_gen_half_form.", pdf_prelude="rewrite tpdf_gen_half_form.",
+                    num_fun="(fun th => / sqrt (cos th))", num_e="mpf(-1)/2",
+                    fun="(fun th => sqrt (cos th) ^ 3)", e="mpf(3)/2")
     p = half_steps(v)
     if p is None:
         return None
@@ -156,12 +186,15 @@ def t_forms(v):
 def goal_tcdf(gid, v, x, obs, info):
     f = t_forms(v)
     vs, xs = m2.rlit(v), m2.rlit(x)
-    expr = "tcdf %s %s" % (vs, xs)
-    prelude = "rewrite (%s %s %s) by (rewrite ?INR_lit; simpl; lra)." % (f["cdf"], vs, xs)
+    if "expr_cdf" in f:
+        expr, prelude = f["expr_cdf"] % xs, f["cdf_prelude"]
+    else:
+        expr = "tcdf %s %s" % (vs, xs)
+        prelude = "rewrite (%s %s %s) by (rewrite ?INR_lit; simpl; lra)." % (f["cdf"], vs, xs)
     rel = Fraction(1, 10 ** 10)
     up = "(atan (%s / sqrt %s))" % (xs, vs)
-    integrals = [dict(term="RInt %s 0 %s" % (f["fun"], up), pat="RInt _ 0 %s" % up,
-                      ref="cos_int(%s, atan(%s/sqrt(%s)))" % (f["e"], m2.pylit(x), m2.pylit(v)), rel=rel),
+    integrals = [dict(term="RInt %s 0 %s" % (f.get("num_fun", f["fun"]), up), pat="RInt _ 0 %s" % up,
+                      ref="cos_int(%s, atan(%s/sqrt(%s)))" % (f.get("num_e", f["e"]), m2.pylit(x), m2.pylit(v)), rel=rel),
                  dict(term="RInt %s 0 (PI / 2)" % f["fun"], pat="RInt _ 0 (PI / 2)", ref="cos_int(%s, pi/2)" % f["e"], rel=rel)]
     return m2.Goal(gid, expr, obs, TOL, requires=REQ, prelude=prelude, integrals=integrals, ref="tcdf(%s,%s)" % (m2.pylit(v), m2.pylit(x)), info=info)
 
@@ -169,8 +202,11 @@ def goal_tcdf(gid, v, x, obs, info):
 def goal_tpdf(gid, v, x, obs, info):
     f = t_forms(v)
     vs, xs = m2.rlit(v), m2.rlit(x)
-    expr = "tpdf %s %s" % (vs, xs)
-    prelude = "rewrite (%s %s %s) by (rewrite ?INR_lit; simpl; lra)." % (f["pdf"], vs, xs)
+    if "expr_pdf" in f:
+        expr, prelude = f["expr_pdf"] % xs, f["pdf_prelude"]
+    else:
+        expr = "tpdf %s %s" % (vs, xs)
+        prelude = "rewrite (%s %s %s) by (rewrite ?INR_lit; simpl; lra)." % (f["pdf"], vs, xs)
     integrals = [dict(term="RInt %s 0 (PI / 2)" % f["fun"], pat="RInt _ 0 (PI / 2)", ref="cos_int(%s, pi/2)" % f["e"], rel=Fraction(1, 10 ** 11))]
     return m2.Goal(gid, expr, obs, TOL, requires=REQ, prelude=prelude, integrals=integrals, ref="tpdf(%s,%s)" % (m2.pylit(v), m2.pylit(x)), info=info)
 
@@ -208,7 +244,7 @@ def collect(lines):
                 if not (m2.is_num(x) and x != 0):
                     continue
                 info = dict(v=v, x=x, point=pi)
-                ok = half_steps(v) is not None and abs(x) <= 1000
+                ok = t_certifiable(v, x)
                 if m2.is_num(p["cdf"]):
                     (cert if ok else refonly).append(("tcdf", ci, info, p["cdf"]))
                 if m2.is_num(p["pdf"]):
@@ -269,7 +305,7 @@ def extra(ctx):
     tier, seed, lines = ctx["tier"], ctx["seed"], ctx["lines"]
     rnd = random.Random(seed * 1009 + 5)
     cert, refonly = collect(lines)
-    quota = dict(ncdf=14, npdf=6, invcdf=8, tcdf=14, tpdf=4) if tier == "quick" else dict(ncdf=400, npdf=150, invcdf=250, tcdf=500, tpdf=150)
+    quota = dict(ncdf=14, npdf=6, invcdf=8, tcdf=20, tpdf=6) if tier == "quick" else dict(ncdf=400, npdf=150, invcdf=250, tcdf=500, tpdf=150)
     nref = 4000 if tier == "quick" else 60000
     # ---- uncertified reference on a sample of all transcendental values
     ref_items = [it for it in refonly + cert]
@@ -317,6 +353,23 @@ def extra(ctx):
                 for b in sorted(buckets):
                     if buckets[b] and len(picked) < quota[kind]:
                         picked.append(buckets[b].pop())
+            chosen += picked
+        elif kind in ("tcdf", "tpdf"):
+            # stratified over V: first one goal for each of the small V (1/2 = the only certifiable V below 1,
+            # then the integers and half-integers a sample of 2..6 values produces), then one goal per further
+            # distinct V, round robin, until the quota is reached; abscissae 1/4 <= |x| <= 8 where a wrong
+            # formula is visible
+            prio = [Fraction(k, 2) for k in (1, 2, 3, 4, 5, 6, 8, 10)] if kind == "tcdf" else [Fraction(k, 2) for k in (1, 2, 4, 6)]
+            byv = {}
+            for it in items:
+                if Fraction(1, 4) <= abs(it[2]["x"]) <= 8:
+                    byv.setdefault(it[2]["v"], []).append(it)
+            order = [v for v in prio if v in byv] + [v for v in byv if v not in prio]
+            picked, rnd_i = [], 0
+            while len(picked) < quota.get(kind, 0) and any(byv[v] for v in order):
+                for v in order:
+                    if byv[v] and len(picked) < quota.get(kind, 0):
+                        picked.append(byv[v].pop())
             chosen += picked
         else:
             chosen += items[:quota.get(kind, 0)]
